@@ -107,6 +107,10 @@ def _values(family):
     if family == "empty":
         # present but empty: still values the application set
         base.update(pushname="", chat_dns_domain="", fdid="", edge_routing_info=b"", id=b"", expid=b"", login="", mcc="", mnc="")
+    if family == "edge-bytes":
+        # binary values whose first / last byte is a whitespace character (about one random key in twenty has such a byte at an end)
+        base.update(client_static_keypair=KeyPair.from_bytes(b"\x09" + bytes(range(2, 64)) + b"\x20"), server_static_public=PublicKey(b"\x0a" + bytes(range(101, 131)) + b"\x0d"),
+                    id=b" " + bytes(range(18)) + b"\n", expid=b"\x0b" + bytes(range(14)) + b"\x0c", edge_routing_info=b"\t\x08\x02 ")
     if family == "long":
         # values well beyond the usual sizes: routing info of a few hundred bytes, a long display name (the file grows past 1 KiB)
         base.update(edge_routing_info=bytes((i * 7 + 1) % 256 for i in range(300)), pushname="N" + "a long name " * 60 + "end", id=bytes(range(20)), expid=bytes(range(16)))
@@ -185,7 +189,7 @@ def h_roundtrip(ctx, nrandom, how=None):
     with _Env() as env:
         fmt = ctx.choice("format", ["json", "keyval"])
         how = how or ctx.choice("load_by", ["path-with-extension", "path-without-extension", "profile-name", "fresh-profile-name", "profile-object"])
-        family = ctx.choice("values", ["plain", "unicode", "zeros", "surrogate", "empty", "long"])
+        family = ctx.choice("values", ["plain", "unicode", "zeros", "surrogate", "empty", "long", "edge-bytes"])
         locale_enc = ctx.choice("locale_encoding", ["utf-8", "ascii"])
         name, subset = _subset(ctx, nrandom)
         if fmt == "keyval" and family in ("unicode", "surrogate", "empty"):
